@@ -25,7 +25,11 @@ RULE = ("TLC enumerates every valid ScenarioID field combination of cooperative 
         "spec from the ids of one map x {ZAM,DEU}: 4.9k transitions, thorough: from all ids, 78k; the 4.9k and seeded "
         "random ones are executed: "
         "construct, print once via str() resp. Solution.benchmark_id, assign, then print / parse / compare / "
-        "write+read a solution again). distinct_nontrivial = distinct executed cases that are "
+        "write+read a solution again). Planning problems: Reorder gives cooperative lists every injective list of "
+        "planning problem ids over {3,7,12} (non-ascending, 12 before 3); random solutions use random distinct ids in "
+        "random order; the printed lists must be positional w.r.t. Solution.planning_problem_ids and the written "
+        "trajectory nodes, and after write -> read every planning problem id keeps its (model, type, cost). "
+        "distinct_nontrivial = distinct executed cases that are "
         "not a plain map id (scenario ids) resp. distinct solution cases.")
 ASSUMPTIONS = [
     "texts are compared as token sequences; the tokeniser (maximal alphanumeric runs classified as num / up3 / word, "
@@ -193,9 +197,10 @@ def _traj(model):
     return _TRAJ[model]
 
 
-def sol_sig(vs):
+def sol_sig(vs, pp=None):
     n = len(vs)
-    return "solution/" + ("single" if n == 1 else "cooperative-%d" % n if n <= 3 else "cooperative-4+")
+    return "solution/" + ("single" if n == 1 else "cooperative-%d" % n if n <= 3 else "cooperative-4+") + \
+        ("+pp-unsorted" if pp is not None and list(pp) != sorted(pp) else "")
 
 
 def _sol_fields(sol):
@@ -204,21 +209,34 @@ def _sol_fields(sol):
     return vs, cs, sol.scenario_id
 
 
+def _assoc(sol):
+    return [{"pp": _int(p.planning_problem_id), "m": str(p.vehicle_model.name), "t": _int(p.vehicle_type.value),
+             "c": str(p.cost_function.name)} for p in sol.planning_problem_solutions]
+
+
+def _doc_nodes(xml):
+    """Projection of a written document: the planningProblem attribute of every trajectory node, in document order."""
+    import xml.etree.ElementTree as et
+    return [_int(int(n.get("planningProblem"))) for n in et.fromstring(xml)]
+
+
 def _exec_sol(case):
     from commonroad.common.solution import (CommonRoadSolutionReader, CommonRoadSolutionWriter, CostFunction,
                                             PlanningProblemSolution, Solution, VehicleModel, VehicleType)
     f, pk = case["f"], case["pk"]
     vs = [{"m": x["m"], "t": x["t"]} for x in case["vs"]]
     cs = [x["c"] for x in case["vs"]]
-    base = {"vs": vs, "cs": cs, "f": f, "pk": pk}
-    sig = sol_sig(vs)
+    pp = list(case.get("pp") or range(1, len(vs) + 1))     # planning problem ids, in the order the solutions are passed
+    base = {"vs": vs, "cs": cs, "pp": pp, "f": f, "pk": pk}
+    sig = sol_sig(vs, pp)
     ev = []
     try:
         sid = _mk_id(f, pk)
-        pps = [PlanningProblemSolution(i + 1, VehicleModel[x["m"]], VehicleType(x["t"]), CostFunction[x["c"]],
+        pps = [PlanningProblemSolution(pp[i], VehicleModel[x["m"]], VehicleType(x["t"]), CostFunction[x["c"]],
                                        _traj(x["m"])) for i, x in enumerate(case["vs"])]
         sol = Solution(sid, pps)
         ev.append(dict(base, op="sol_construct", sig=sig, res="ok"))
+        base["ord"] = [_int(x) for x in sol.planning_problem_ids]
     except Exception as ex:
         ev.append(dict(base, op="sol_construct", sig=sig, res=_exc(ex)))
         return ev
@@ -233,26 +251,35 @@ def _exec_sol(case):
 
     def parsed(route, got):
         """got = (vehicles, costs, ScenarioID) -> one event per compared field; an exception -> one event."""
-        for field in ("vehicles", "costs", "scenario_id", "version") if not isinstance(got, Exception) else ("all",):
+        fields = ("all",) if isinstance(got, Exception) else \
+            ("vehicles", "costs", "scenario_id", "version") + (("assignment",) if len(got) > 3 else ())
+        for field in fields:
             s = "solution/" + id_sig(f, pk) if field == "scenario_id" else sig
             e = dict(base, op="sol_parse", route=route, field=field, sig=s, got_vs=[], got_cs=[], got_f=_NOF,
-                     got_ver="", eq_op=0, eq_po=0, res="ok")
+                     got_ver="", got_assoc=[], eq_op=0, eq_po=0, res="ok")
             if isinstance(got, Exception):
                 e["res"] = _exc(got)
             else:
-                gvs, gcs, gid = got
+                gvs, gcs, gid = got[:3]
+                if len(got) > 3:
+                    e["got_assoc"] = got[3]
                 e.update(got_vs=gvs, got_cs=gcs, got_f=_fields(gid), got_ver=str(gid.scenario_version),
                          eq_op=_eq(sid, gid), eq_po=_eq(gid, sid))
             ev.append(e)
 
     # public route: minimal document written by the writer, read by the reader
-    back = None
+    back, xml = None, None
     try:
         xml = CommonRoadSolutionWriter(sol).dump()
-        back = CommonRoadSolutionReader.fromstring(xml)
-        parsed("reader", _sol_fields(back))
+        ev.append(dict(base, op="sol_align", sig=sig, toks=toks, nodes=_doc_nodes(xml), res="ok"))
     except Exception as ex:
-        parsed("reader", ex)
+        ev.append(dict(base, op="sol_align", sig=sig, toks=toks, nodes=[], res=_exc(ex)))
+    if xml is not None:
+        try:
+            back = CommonRoadSolutionReader.fromstring(xml)
+            parsed("reader", _sol_fields(back) + (_assoc(back),))
+        except Exception as ex:
+            parsed("reader", ex)
     # the id parser alone, the way _parse_solution uses it
     try:
         vids, cids, gid = CommonRoadSolutionReader._parse_benchmark_id(text)
@@ -326,7 +353,7 @@ def _exec_set(case):
     # (2) the same through a solution: benchmark id printed once, scenario id edited in place, printed / written / read
     ssig = "solution/after-set:" + fld
     vs, cs = [{"m": "PM", "t": 2}], ["WX1"]
-    shist = dict(hist, vs=vs, cs=cs)
+    shist = dict(hist, vs=vs, cs=cs, pp=[1], ord=[1])
     try:
         sid2 = _mk_id(f, pk)
         sol = Solution(sid2, [PlanningProblemSolution(1, VehicleModel.PM, VehicleType(2), CostFunction.WX1, _traj("PM"))])
@@ -342,7 +369,7 @@ def _exec_set(case):
         ev.append(dict(shist, op="sol_print", sig=ssig, toks=[], res=_exc(ex)))
         return ev
     e = dict(shist, op="sol_parse", route="reader", field="scenario_id", sig=ssig, got_vs=[], got_cs=[], got_f=_NOF,
-             got_ver="", eq_op=0, eq_po=0, res="ok")
+             got_ver="", got_assoc=[], eq_op=0, eq_po=0, res="ok")
     try:
         rb = CommonRoadSolutionReader.fromstring(CommonRoadSolutionWriter(sol).dump())
         gvs, gcs, gid = _sol_fields(rb)
@@ -360,6 +387,9 @@ def model_check(ctx):
            timeout=3000)
     # the shipped ==, which compares the int / list spelling, must give the documented counterexample (pred = [1])
     ctx.mc_expect("MC_BenchmarkId", "DEV_BenchmarkId_1.cfg", "LawRoundTripEqual")
+    # id lists printed in ascending planning-problem-id order while the planning problem solutions keep their order
+    # (a seeded change, not shipped): the alignment law must give a counterexample with non-ascending ids
+    ctx.mc_expect("MC_BenchmarkId", "DEV_BenchmarkId_2.cfg", "LawSolAligned")
 
 
 def _rand_num(rng):
@@ -431,7 +461,11 @@ def cases(ctx):
     for _ in range(3000 if ctx.thorough else 400):
         f, pk = _rand_fields(rng, countries)
         n = rng.choice([1, 1, 2, 2, 3, 4, 5])
-        cs.append({"kind": "sol", "pk": pk, "f": f, "vs": [_rand_triple(rng) for _ in range(n)], "src": "random"})
+        pp = rng.sample([0, 1, 2, 3, 5, 7, 9, 10, 11, 12, 20, 33, 100, 101, 1000, 2 ** 31 - 1], n)
+        if rng.random() < 0.3:
+            pp.sort()
+        cs.append({"kind": "sol", "pk": pk, "f": f, "vs": [_rand_triple(rng) for _ in range(n)], "pp": pp,
+                   "src": "random"})
     for _ in range(5000 if ctx.thorough else 600):
         cs.append(_rand_set(rng, countries))
     return cs
@@ -456,7 +490,7 @@ def nontrivial(case):
         return ("id", case["pk"]) + _fkey(f)
     if case["kind"] == "set":
         return ("set", case["pk"], case["fld"], case["bpk"]) + _fkey(f) + _fkey(case["b"])
-    return ("sol", case["pk"], tuple((x["m"], x["t"], x["c"]) for x in case["vs"])) + _fkey(f)
+    return ("sol", case["pk"], tuple((x["m"], x["t"], x["c"]) for x in case["vs"]), tuple(case.get("pp") or ())) + _fkey(f)
 
 
 def corrupt(trace, rng):
